@@ -51,7 +51,15 @@ GenFails(c) ==
      ~ CASE cl = "generated_shape" -> c.gen = "split" \/
               got = (CASE c.gen = "star" -> StarClades(c.n) [] c.gen = "comb" -> CombClades(c.n) [] c.gen = "balanced" -> BalClades(0, c.n, c.arity))
          [] cl = "split_polytomies" -> c.gen # "split" \/ Resolves(got, CladeSet(c.orig), S)}
-Fails(c) == IF c.kind = "table" THEN TableFails(c) ELSE IF c.kind = "gen" THEN GenFails(c) ELSE CountFails(c)
+\* a rank table too large for Topologies(n): only the enumeration order (increasing, dense from (0, 0)) of the ranks of the enumerated trees
+OrderFails(c) ==
+  LET rows == c.rows IN
+  {cl \in {"order", "dense"} :
+     ~ CASE cl = "order" -> \A i \in 1..(Len(rows) - 1) : rows[i][1] < rows[i + 1][1] \/ (rows[i][1] = rows[i + 1][1] /\ rows[i][2] < rows[i + 1][2])
+         [] cl = "dense" -> /\ Len(rows) = 0 \/ rows[1] = <<0, 0>>
+                            /\ \A i \in 1..(Len(rows) - 1) : (rows[i + 1][1] = rows[i][1] /\ rows[i + 1][2] = rows[i][2] + 1)
+                                                               \/ (rows[i + 1][1] = rows[i][1] + 1 /\ rows[i + 1][2] = 0)}
+Fails(c) == IF c.kind = "table" THEN TableFails(c) ELSE IF c.kind = "gen" THEN GenFails(c) ELSE IF c.kind = "order" THEN OrderFails(c) ELSE CountFails(c)
 Init == k = 0
 Next == k < Len(Cases) /\ k' = k + 1
 Spec == Init /\ [][Next]_k
